@@ -137,10 +137,20 @@ def _sdd_family(ctx, mode, cfg, nq=6, nt=40, segs=5, length=120, nmax=5):
     record_and_validate(ctx, jobs, "TraceSdd", cfg)
 
 
+def sdd_apply_model(ctx):
+    """SddApply: the four apply cases with their shortcuts yield the conjunction, keep the primes a partition and,
+    after compress + trimming, the canonical element list - for all pairs of functions"""
+    model_check(ctx, "SddApply", "MC_SddApply_q.cfg", "all 256 pairs of 2-variable functions, vtree (x0 | x1)", workers=2)
+    if not ctx.quick:
+        model_check(ctx, "SddApply", "MC_SddApply_1_2.cfg", "all 65 536 pairs of 3-variable functions, left {x0} right {x1,x2}", workers=16, timeout=3000, xmx="8g")
+        model_check(ctx, "SddApply", "MC_SddApply_2_1.cfg", "all 65 536 pairs of 3-variable functions, left {x0,x2} right {x1}", workers=16, timeout=3000, xmx="8g")
+
+
 def C03(ctx):
     ctx.assumptions += ["SDD denotations are recomputed by TLC from raw element lists (prime/sub pointers, complement bits)",
                         "vtrees: right-linear, left-linear, even-split, dtree-derived and random shapes with random leaf labellings, <= 5 variables",
                         "uncompressed segments are kept short (<= 30 operations): uncompressed random programs blow up in the library itself"]
+    sdd_apply_model(ctx)
     function_level_vectors(ctx, "sddvec")
     _sdd_family(ctx, "c03", "TraceSdd_C03.cfg", nq=8)
 
@@ -148,6 +158,7 @@ def C03(ctx):
 def C04(ctx):
     ctx.assumptions += ["well-formedness is evaluated on truth tables of every prime and sub of every new node (partition, vtree sides, distinct subs, untrimmable)",
                         "unique-table growth forced by the capacity hook (both SDD tables use BackedRobinhoodTable)"]
+    sdd_apply_model(ctx)
     # both SDD unique tables are BackedRobinhoodTable in structural-equality mode: the design-level check and the
     # table-level conformance checks of C02 apply to C04's "pointer-equal iff same function" as well
     model_check(ctx, "RobinHood", "MC_RobinHood.cfg", "RobinHood (as repaired) refines SetTable: 5 keys, 4 hashes, cap 2->8", workers=6)
